@@ -259,7 +259,10 @@ def run(ctx):
         readers = sorted({e2["name"] for e2 in data["coq_entries"] for a2 in e2["accesses"] if not a2["write"] and a2["loc"] in locs})
         small = ([ename] if a["write"] else []) + [r_ for r_ in readers if r_ != ename][:3] + \
             (["crdIpam.AllocateInSubnet"] if ename.startswith("crdIpam.") else [])
-        rounds = ([small] if a["write"] and small != writers else []) + [writers]
+        feeder = ["crdIpam.AllocateInSubnet"] if ename.startswith("crdIpam.") else []
+        inplace = [w_ for w_ in writers if w_ in ("crdIpam.UpdateAttr", "crdIpam.ReserveIP", "crdIpam.handleFIPAssign")]
+        rounds = ([small] if a["write"] and small != writers else []) + \
+            ([inplace + feeder] if not a["write"] and inplace else []) + [writers + [f_ for f_ in feeder if f_ not in writers]]
         replay = {"access_pair": {"undisciplined": [{"entry": x[0]["name"], "access": x[1]} for x in items],
                                   "partner": partner}, "how": "bin/check C19 --replay <this file>"}
         found = False
